@@ -345,8 +345,62 @@ def runAnn (ops : List String) : String :=
     let b := out (arun State.empty (fun _ => 1000000) 0 aops)
     if a == b then a else s!"MODEL-DIVERGES lifo[{a}] fresh[{b}]"
 
+/-! ### concurrent use (`harness/c07_conc.go`): the answers of the sub-cases run ALONE -/
+
+/-- `__make_default_qualities__` (biosequence.go): `Qualities()` of a sequence that has none shows
+`length` times 40; printed as length + distinct values -/
+def showDefaultQual (n : Nat) : String := if n == 0 then "dq 0 -" else s!"dq {n} 28"
+
+open ObiVerif.SeqAnnot in
+/-- one sub-case of `conc`: `<kind> <shared> <seq> <qual> <mm> <from> <to>`; `none` = malformed.
+The answer does not depend on `shared` (one source object read by all goroutines, or one per call). -/
+def concSub (kind sh s q mm f t : String) : Option String :=
+  if sh != "0" && sh != "1" then none
+  else if kind == "dq" then
+    match f.toNat? with
+    | some n => if s == "-" && q == "-" && mm == "-" && t == "0" && n ≤ 20000000 then some (showDefaultQual n) else none
+    | none => none
+  else
+    match parseW s q mm, f.toInt?, t.toInt? with
+    | some o, some f, some t =>
+      if kind == "rc" || (kind == "rci" && sh == "0") then some (showRcW o)
+      else if kind == "copy" then some (showW (copyW o))
+      else if kind == "sub" || kind == "csub" then
+        some (match subW o f t (kind == "csub") with
+          | .ok r => "ok " ++ showW r
+          | .error .panic => "panic"
+          | .error _ => "err")
+      else if kind == "subrc" then
+        -- Subsequence, then ReverseComplement(true) of the piece (obimultiplex, obipcr)
+        some (match subW o f t false with
+          | .ok r => let x := showRcW r; if x == "panic" then "panic" else "ok " ++ x
+          | .error .panic => "panic"
+          | .error _ => "err")
+      else none
+    | _, _, _ => none
+
+def concSubs : List String → Option (List String)
+  | [] => some []
+  | k :: sh :: s :: q :: mm :: f :: t :: rest =>
+    match concSub k sh s q mm f t, concSubs rest with
+    | some a, some r => some (a :: r)
+    | _, _ => none
+  | _ => none
+
+/-- `conc <g> <r> <n> n × sub-case`: the harness demands these answers from every concurrent call too -/
+def runConc (ws : List String) : String :=
+  match ws with
+  | g :: r :: n :: rest =>
+    match g.toNat?, r.toNat?, n.toNat?, concSubs rest with
+    | some g, some r, some n, some as =>
+      if 1 ≤ g && g ≤ 64 && 1 ≤ r && r ≤ 5000 && 1 ≤ n && n ≤ 64 && as.length == n then " ; ".intercalate as else "bad-op"
+    | _, _, _, _ => "bad-op"
+  | _ => "bad-op"
+
 def run (line : String) : String :=
   match words line with
+  | "conc" :: "race" :: ws => runConc ws
+  | "conc" :: ws => runConc ws
   | "heap" :: ops => runHeap ops
   | "mut" :: ops => runMut ops
   | "annh" :: ops => runAnn ops
